@@ -273,7 +273,7 @@ def arc_paths(rng, n):
 def path_level(ctx, n):
     """SVGPath.arcs_to_cubics(): model correspondence on the d string and the Spec.interp judge of C09"""
     from props import c09
-    ds = arc_paths(ctx.rng, n)
+    ds = list(c09.FULL_TURNS) + ["M10,10 A5 5 0 1 1 10,10.0000000001 z", "M2,3 L8,3 A4 4 0 1 0 2.0000000004,3 Z"] + arc_paths(ctx.rng, n)
     outs = ctx.model([c09.model_line("arcs_to_cubics", d) for d in ds])
     dis = []
     for d, m in zip(ds, outs):
